@@ -2,411 +2,60 @@ import DarkluaModel.Shared.VisitorSoundHeap
 /-!
 # C06 — stage-3 links relative to a class of dead sets
 
-A copy of `Shared/VisitorSound/Heap/HLinks.lean` + `HFam.lean` (links, their congruences, the congruence
-family of chains of links) in which every link is only required for the dead sets `D` that satisfy a
-predicate `Dok` (GENERATED from those files by threading the extra hypothesis through; the proofs are
-the lead's). With `Dok D := no generated temporary name is dead in D` a link may introduce a local and
-reference it — impossible for the unrestricted links, which must re-establish `NoRef D` for every `D`
-(references are flow-insensitive). `chainOn_runProgram`: a chain of such links between whole programs
-preserves the observable outcome, as soon as the initial dead set `watD cx` satisfies `Dok`.
+Since round 3 the class of dead sets is part of the shared API: `Sem.Heap.Cx.Dok` (a field of the
+context, default "all dead sets") and `WatOK cx D` carries `cx.Dok D`. This file keeps the old names
+as abbreviations: `GkE cx Dok = LkE (cxOn cx Dok)` … where `cxOn cx Dok` is `cx` with its class of dead
+sets replaced by `Dok`. With `Dok D := no generated temporary name is dead in D` a link may introduce a
+local and reference it — impossible for unrestricted links, which must re-establish `NoRef D` for
+every `D` (references are flow-insensitive).
 -/
 namespace DarkluaModel.C06.HeapOn
 open DarkluaModel DarkluaModel.Sem DarkluaModel.Sem.Heap
+
+/-- the context `cx` with the class of dead sets `Dok` -/
+def cxOn (cx : Cx) (Dok : List DName → Prop) : Cx := { cx with Dok := Dok }
+
 variable {cx : Cx} {Dok : List DName → Prop}
 
-def GkE (cx : Cx) (Dok : List DName → Prop) (e e' : Expr) : Prop := ∀ D, WatOK cx D → Dok D → NoRefE D e → HR cx D (.e e) (.e e') D ∧ NoRefE D e'
-/-- target links never rewrite a plain variable target -/
-structure GkT (cx : Cx) (Dok : List DName → Prop) (e e' : Expr) : Prop where
-  hr : ∀ D, WatOK cx D → Dok D → NoRefT D e → HR cx D (.t e) (.t e') D ∧ NoRefT D e'
-  var : ∀ a, e = .var a → e' = .var a
-def GkS (cx : Cx) (Dok : List DName → Prop) (s s' : Stmt) : Prop := ∀ D, WatOK cx D → Dok D → NoRefS D s → HR cx D (.s s) (.s s') D ∧ NoRefS D s'
-def GkL (cx : Cx) (Dok : List DName → Prop) (l l' : Last) : Prop := ∀ D, WatOK cx D → Dok D → NoRefL D l → HR cx D (.l l) (.l l') D ∧ NoRefL D l'
-/-- closed blocks: the final environment is discarded, the output dead set is arbitrary -/
-def GkB (cx : Cx) (Dok : List DName → Prop) (b b' : Block) : Prop := ∀ D, WatOK cx D → Dok D → NoRefB D b → (∃ D', HR cx D (.b b) (.b b') D') ∧ NoRefB D b'
-/-- open blocks: the final environments agree outside the input dead set -/
-def GkBo (cx : Cx) (Dok : List DName → Prop) (b b' : Block) : Prop := ∀ D, WatOK cx D → Dok D → NoRefB D b → HR cx D (.b b) (.b b') D ∧ NoRefB D b'
-def GkRep (cx : Cx) (Dok : List DName → Prop) (p q : Block × Expr) : Prop :=
-  ∀ D, WatOK cx D → Dok D → NoRefB D p.1 → NoRefE D p.2 → HR cx D (.rep p.1 p.2) (.rep q.1 q.2) D ∧ NoRefB D q.1 ∧ NoRefE D q.2
-def GkF (cx : Cx) (Dok : List DName → Prop) (f f' : FnBody) : Prop :=
-  ∀ D, WatOK cx D → Dok D → ∀ (m : Option String), NoRefF D f → (m.isSome = true → DName.wat "self" ∉ D) →
-    HR cx D (.f (addSelf m f)) (.f (addSelf m f')) D ∧ NoRefF D f'
+abbrev GkE (cx : Cx) (Dok : List DName → Prop) := LkE (cxOn cx Dok)
+abbrev GkT (cx : Cx) (Dok : List DName → Prop) := LkT (cxOn cx Dok)
+abbrev GkS (cx : Cx) (Dok : List DName → Prop) := LkS (cxOn cx Dok)
+abbrev GkL (cx : Cx) (Dok : List DName → Prop) := LkL (cxOn cx Dok)
+abbrev GkB (cx : Cx) (Dok : List DName → Prop) := LkB (cxOn cx Dok)
+abbrev GkBo (cx : Cx) (Dok : List DName → Prop) := LkBo (cxOn cx Dok)
+abbrev GkRep (cx : Cx) (Dok : List DName → Prop) := LkRep (cxOn cx Dok)
+abbrev GkF (cx : Cx) (Dok : List DName → Prop) := LkF (cxOn cx Dok)
 
-theorem GkE.refl (e) : (GkE cx Dok) e e := fun _ _ _ h => ⟨.reflE h, h⟩
-theorem GkT.refl (e) : (GkT cx Dok) e e := ⟨fun _ _ _ h => ⟨.reflT h, h⟩, fun _ h => h⟩
-theorem GkS.refl (e) : (GkS cx Dok) e e := fun _ _ _ h => ⟨.reflS h, h⟩
-theorem GkL.refl (e) : (GkL cx Dok) e e := fun _ _ _ h => ⟨.reflL h, h⟩
-theorem GkB.refl (e) : (GkB cx Dok) e e := fun D _ _ h => ⟨⟨D, .reflB h⟩, h⟩
-theorem GkBo.refl (e) : (GkBo cx Dok) e e := fun _ _ _ h => ⟨.reflB h, h⟩
-theorem GkRep.refl (p) : (GkRep cx Dok) p p := fun _ _ _ hb hc => ⟨.rep (.reflB hb) (.reflE hc), hb, hc⟩
-theorem GkF.refl (f) : (GkF cx Dok) f f := fun _ _ _ _ h hs => ⟨.reflF (NoRefF.addSelf h hs), h⟩
+theorem watD_cxOn : watD (cxOn cx Dok) = watD cx := rfl
 
-theorem GkBo.toB {b b'} (h : (GkBo cx Dok) b b') : (GkB cx Dok) b b' := fun D hd hk hn => ⟨⟨D, (h D hd hk hn).1⟩, (h D hd hk hn).2⟩
+theorem GkE.refl (e) : (GkE cx Dok) e e := LkE.refl e
+theorem GkT.refl (e) : (GkT cx Dok) e e := LkT.refl e
+theorem GkS.refl (e) : (GkS cx Dok) e e := LkS.refl e
+theorem GkL.refl (e) : (GkL cx Dok) e e := LkL.refl e
+theorem GkB.refl (e) : (GkB cx Dok) e e := LkB.refl e
+theorem GkBo.refl (e) : (GkBo cx Dok) e e := LkBo.refl e
 
-/-! ### exact steps as links -/
+theorem GkE.ofEq {e e'} (h : EqE e e') (hn : ∀ D, WatOK (cxOn cx Dok) D → NoRefE D e → NoRefE D e') :
+    (GkE cx Dok) e e' := LkE.ofEq h hn
+theorem GkT.ofEq {e e'} (h : EqT e e') (hn : ∀ D, WatOK (cxOn cx Dok) D → NoRefT D e → NoRefT D e') :
+    (GkT cx Dok) e e' := LkT.ofEq h hn
+theorem GkS.ofEq {e e'} (h : EqS e e') (hn : ∀ D, WatOK (cxOn cx Dok) D → NoRefS D e → NoRefS D e') :
+    (GkS cx Dok) e e' := LkS.ofEq h hn
+theorem GkL.ofEq {e e'} (h : EqL e e') (hn : ∀ D, WatOK (cxOn cx Dok) D → NoRefL D e → NoRefL D e') :
+    (GkL cx Dok) e e' := LkL.ofEq h hn
+theorem GkBo.ofEq {e e'} (h : EqB e e') (hn : ∀ D, WatOK (cxOn cx Dok) D → NoRefB D e → NoRefB D e') :
+    (GkBo cx Dok) e e' := LkBo.ofEq h hn
 
-theorem GkE.ofEq {e e'} (h : EqE e e') (hn : ∀ D, WatOK cx D → Dok D → NoRefE D e → NoRefE D e') : (GkE cx Dok) e e' :=
-  fun D hw hk hd => ⟨.stepE h (.reflE (hn D hw hk hd)), hn D hw hk hd⟩
-theorem GkT.ofEq {e e'} (h : EqT e e') (hn : ∀ D, WatOK cx D → Dok D → NoRefT D e → NoRefT D e') : (GkT cx Dok) e e' :=
-  ⟨fun D hw hk hd => ⟨.stepT h (.reflT (hn D hw hk hd)), hn D hw hk hd⟩, fun a ha => by subst ha; exact h.var_eq⟩
-theorem GkS.ofEq {e e'} (h : EqS e e') (hn : ∀ D, WatOK cx D → Dok D → NoRefS D e → NoRefS D e') : (GkS cx Dok) e e' :=
-  fun D hw hk hd => ⟨.stepS h (.reflS (hn D hw hk hd)), hn D hw hk hd⟩
-theorem GkL.ofEq {e e'} (h : EqL e e') (hn : ∀ D, WatOK cx D → Dok D → NoRefL D e → NoRefL D e') : (GkL cx Dok) e e' :=
-  fun D hw hk hd => ⟨.stepL h (.reflL (hn D hw hk hd)), hn D hw hk hd⟩
-theorem GkBo.ofEq {e e'} (h : EqB e e') (hn : ∀ D, WatOK cx D → Dok D → NoRefB D e → NoRefB D e') : (GkBo cx Dok) e e' :=
-  fun D hw hk hd => ⟨.stepB h (.reflB (hn D hw hk hd)), hn D hw hk hd⟩
-
-/-! ### lists of links -/
-
-theorem gkEs {xs ys} (h : Forall2 (GkE cx Dok) xs ys) : ∀ D, WatOK cx D → Dok D → NoRefEs D xs → HR cx D (.es xs) (.es ys) D ∧ NoRefEs D ys := by
-  induction h with
-  | nil => exact fun D hd hk hn => ⟨.esNil, hn⟩
-  | cons h1 _ ih =>
-    intro D hd hk hn
-    have := NoRefEs.cons.mp hn
-    exact ⟨.esCons (h1 D hd hk this.1).1 (ih D hd hk this.2).1, NoRefEs.cons.mpr ⟨(h1 D hd hk this.1).2, (ih D hd hk this.2).2⟩⟩
-
-theorem gkTs {xs ys} (h : Forall2 (GkT cx Dok) xs ys) : ∀ D, WatOK cx D → Dok D → NoRefTs D xs → HR cx D (.ts xs) (.ts ys) D ∧ NoRefTs D ys := by
-  induction h with
-  | nil => exact fun D hd hk hn => ⟨.tsNil, hn⟩
-  | cons h1 _ ih =>
-    intro D hd hk hn
-    have := NoRefTs.cons.mp hn
-    exact ⟨.tsCons (h1.hr D hd hk this.1).1 (ih D hd hk this.2).1, NoRefTs.cons.mpr ⟨(h1.hr D hd hk this.1).2, (ih D hd hk this.2).2⟩⟩
-
-theorem gkSs {xs ys} (h : Forall2 (GkS cx Dok) xs ys) : ∀ D, WatOK cx D → Dok D → NoRefSs D xs → HR cx D (.ss xs) (.ss ys) D ∧ NoRefSs D ys := by
-  induction h with
-  | nil => exact fun D hd hk hn => ⟨.ssNil, hn⟩
-  | cons h1 _ ih =>
-    intro D hd hk hn
-    have := NoRefSs.cons.mp hn
-    exact ⟨.ssCons (h1 D hd hk this.1).1 (ih D hd hk this.2).1, NoRefSs.cons.mpr ⟨(h1 D hd hk this.1).2, (ih D hd hk this.2).2⟩⟩
-
-theorem gkElifs {xs ys} (h : Forall2 (PairRel (GkE cx Dok) (GkE cx Dok)) xs ys) :
-    ∀ D, WatOK cx D → Dok D → NoRefElifs D xs → HR cx D (.elifs xs) (.elifs ys) D ∧ NoRefElifs D ys := by
-  induction h with
-  | nil => exact fun D hd hk hn => ⟨.elifsNil, hn⟩
-  | @cons a b _ _ h1 _ ih =>
-    intro D hd hk hn
-    obtain ⟨a1, a2⟩ := a; obtain ⟨b1, b2⟩ := b
-    have := NoRefElifs.cons.mp hn
-    exact ⟨.elifsCons (h1.1 D hd hk this.1).1 (h1.2 D hd hk this.2.1).1 (ih D hd hk this.2.2).1,
-      NoRefElifs.cons.mpr ⟨(h1.1 D hd hk this.1).2, (h1.2 D hd hk this.2.1).2, (ih D hd hk this.2.2).2⟩⟩
-
-theorem gkBranches {xs ys} (h : Forall2 (PairRel (GkE cx Dok) (GkB cx Dok)) xs ys) :
-    ∀ D, WatOK cx D → Dok D → NoRefBranches D xs → HR cx D (.branches xs) (.branches ys) D ∧ NoRefBranches D ys := by
-  induction h with
-  | nil => exact fun D hd hk hn => ⟨.branchesNil, hn⟩
-  | @cons a b _ _ h1 _ ih =>
-    intro D hd hk hn
-    obtain ⟨a1, a2⟩ := a; obtain ⟨b1, b2⟩ := b
-    have := NoRefBranches.cons.mp hn
-    obtain ⟨⟨D', hb⟩, hnb⟩ := h1.2 D hd hk this.2.1
-    exact ⟨.branchesCons (h1.1 D hd hk this.1).1 hb (ih D hd hk this.2.2).1,
-      NoRefBranches.cons.mpr ⟨(h1.1 D hd hk this.1).2, hnb, (ih D hd hk this.2.2).2⟩⟩
-
-theorem gkEntries {xs ys} (h : Forall2 (EntryRel (GkE cx Dok)) xs ys) :
-    ∀ D, WatOK cx D → Dok D → NoRefEntries D xs → HR cx D (.entries xs) (.entries ys) D ∧ NoRefEntries D ys := by
-  induction h with
-  | nil => exact fun D hd hk hn => ⟨.entriesNil, hn⟩
-  | @cons a b _ _ h1 _ ih =>
-    intro D hd hk hn
-    cases a <;> cases b <;> simp only [EntryRel] at h1
-    · have := NoRefEntries.pos.mp hn
-      exact ⟨.entriesPos (h1 D hd hk this.1).1 (ih D hd hk this.2).1, NoRefEntries.pos.mpr ⟨(h1 D hd hk this.1).2, (ih D hd hk this.2).2⟩⟩
-    · obtain ⟨rfl, h1⟩ := h1
-      have := NoRefEntries.named.mp hn
-      exact ⟨.entriesNamed (h1 D hd hk this.1).1 (ih D hd hk this.2).1,
-        NoRefEntries.named.mpr ⟨(h1 D hd hk this.1).2, (ih D hd hk this.2).2⟩⟩
-    · have := NoRefEntries.keyed.mp hn
-      exact ⟨.entriesKeyed (h1.1 D hd hk this.1).1 (h1.2 D hd hk this.2.1).1 (ih D hd hk this.2.2).1,
-        NoRefEntries.keyed.mpr ⟨(h1.1 D hd hk this.1).2, (h1.2 D hd hk this.2.1).2, (ih D hd hk this.2.2).2⟩⟩
-
-theorem gkSegs {xs ys} (h : Forall2 (SegRel (GkE cx Dok)) xs ys) :
-    ∀ D, WatOK cx D → Dok D → NoRefSegs D xs → HR cx D (.segs xs) (.segs ys) D ∧ NoRefSegs D ys := by
-  induction h with
-  | nil => exact fun D hd hk hn => ⟨.segsNil, hn⟩
-  | @cons a b _ _ h1 _ ih =>
-    intro D hd hk hn
-    cases a <;> cases b <;> simp only [SegRel] at h1
-    · subst h1
-      have := NoRefSegs.s.mp hn
-      exact ⟨.segsS (ih D hd hk this).1, NoRefSegs.s.mpr (ih D hd hk this).2⟩
-    · have := NoRefSegs.v.mp hn
-      exact ⟨.segsV (h1 D hd hk this.1).1 (ih D hd hk this.2).1, NoRefSegs.v.mpr ⟨(h1 D hd hk this.1).2, (ih D hd hk this.2).2⟩⟩
-
-
-/-- a `var` target only rewrites to itself -/
-theorem gchainT_var {e e' : Expr} (h : Chain (GkT cx Dok) e e') : ∀ a, e = .var a → e' = .var a := by
-  induction h with
-  | refl => exact fun _ h => h
-  | cons hl _ ih => exact fun a ha => ih a (hl.var a ha)
-
-/-! ### link-level congruences -/
-
-theorem gk_paren {x x'} (h : (GkE cx Dok) x x') : (GkE cx Dok) (.paren x) (.paren x') := fun D hd hk hn =>
-  ⟨.paren (h D hd hk (NoRefE.paren.mp hn)).1, NoRefE.paren.mpr (h D hd hk (NoRefE.paren.mp hn)).2⟩
-theorem gk_un {op x x'} (h : (GkE cx Dok) x x') : (GkE cx Dok) (.un op x) (.un op x') := fun D hd hk hn =>
-  ⟨.un (h D hd hk (NoRefE.un.mp hn)).1, NoRefE.un.mpr (h D hd hk (NoRefE.un.mp hn)).2⟩
-theorem gk_bin {op l l' r r'} (h1 : (GkE cx Dok) l l') (h2 : (GkE cx Dok) r r') : (GkE cx Dok) (.bin op l r) (.bin op l' r') := fun D hd hk hn =>
-  have hh := NoRefE.bin.mp hn
-  ⟨.bin (h1 D hd hk hh.1).1 (h2 D hd hk hh.2).1, NoRefE.bin.mpr ⟨(h1 D hd hk hh.1).2, (h2 D hd hk hh.2).2⟩⟩
-theorem gk_call {f f' m k args args'} (h1 : (GkE cx Dok) f f') (h2 : Forall2 (GkE cx Dok) args args') :
-    (GkE cx Dok) (.call f m k args) (.call f' m k args') := fun D hd hk hn =>
-  have hh := NoRefE.call.mp hn
-  ⟨.call (h1 D hd hk hh.1).1 (gkEs h2 D hd hk hh.2).1, NoRefE.call.mpr ⟨(h1 D hd hk hh.1).2, (gkEs h2 D hd hk hh.2).2⟩⟩
-theorem gk_field {x x' n} (h : (GkE cx Dok) x x') : (GkE cx Dok) (.field x n) (.field x' n) := fun D hd hk hn =>
-  ⟨.field (h D hd hk (NoRefE.field.mp hn)).1, NoRefE.field.mpr (h D hd hk (NoRefE.field.mp hn)).2⟩
-theorem gk_index {x x' k k'} (h1 : (GkE cx Dok) x x') (h2 : (GkE cx Dok) k k') : (GkE cx Dok) (.index x k) (.index x' k') := fun D hd hk hn =>
-  have hh := NoRefE.index.mp hn
-  ⟨.index (h1 D hd hk hh.1).1 (h2 D hd hk hh.2).1, NoRefE.index.mpr ⟨(h1 D hd hk hh.1).2, (h2 D hd hk hh.2).2⟩⟩
-theorem gk_fn {f f'} (h : (GkF cx Dok) f f') : (GkE cx Dok) (.fn f) (.fn f') := fun D hd hk hn => by
-  have hh := h D hd hk none (NoRefE.fn.mp hn) (fun h => by simp at h)
-  rw [addSelf_none, addSelf_none] at hh
-  exact ⟨.fn hh.1, NoRefE.fn.mpr hh.2⟩
-theorem gk_table {es es'} (h : Forall2 (EntryRel (GkE cx Dok)) es es') : (GkE cx Dok) (.table es) (.table es') := fun D hd hk hn =>
-  ⟨.table (gkEntries h D hd hk (NoRefE.table.mp hn)).1, NoRefE.table.mpr (gkEntries h D hd hk (NoRefE.table.mp hn)).2⟩
-theorem gk_ifx {c c' t t' el el' e e'} (h1 : (GkE cx Dok) c c') (h2 : (GkE cx Dok) t t') (h3 : Forall2 (PairRel (GkE cx Dok) (GkE cx Dok)) el el')
-    (h4 : (GkE cx Dok) e e') : (GkE cx Dok) (.ifx c t el e) (.ifx c' t' el' e') := fun D hd hk hn =>
-  have hh := NoRefE.ifx.mp hn
-  ⟨.ifx (h1 D hd hk hh.1).1 (h2 D hd hk hh.2.1).1 (gkElifs h3 D hd hk hh.2.2.1).1 (h4 D hd hk hh.2.2.2).1,
-    NoRefE.ifx.mpr ⟨(h1 D hd hk hh.1).2, (h2 D hd hk hh.2.1).2, (gkElifs h3 D hd hk hh.2.2.1).2, (h4 D hd hk hh.2.2.2).2⟩⟩
-theorem gk_interp {s s'} (h : Forall2 (SegRel (GkE cx Dok)) s s') : (GkE cx Dok) (.interp s) (.interp s') := fun D hd hk hn =>
-  ⟨.interp (gkSegs h D hd hk (NoRefE.interp.mp hn)).1, NoRefE.interp.mpr (gkSegs h D hd hk (NoRefE.interp.mp hn)).2⟩
-theorem gk_cast {x x' ty ty'} (h : (GkE cx Dok) x x') : (GkE cx Dok) (.cast x ty) (.cast x' ty') := fun D hd hk hn =>
-  ⟨.cast (h D hd hk (NoRefE.cast.mp hn)).1, NoRefE.cast.mpr (h D hd hk (NoRefE.cast.mp hn)).2⟩
-theorem gk_inst {x x' ty ty'} (h : (GkE cx Dok) x x') : (GkE cx Dok) (.inst x ty) (.inst x' ty') := fun D hd hk hn =>
-  ⟨.inst (h D hd hk (NoRefE.inst.mp hn)).1, NoRefE.inst.mpr (h D hd hk (NoRefE.inst.mp hn)).2⟩
-theorem gk_tField {x x' n} (h : (GkE cx Dok) x x') : (GkT cx Dok) (.field x n) (.field x' n) :=
-  ⟨fun D hd hk hn => ⟨.tField (h D hd hk (NoRefT.field.mp hn)).1, NoRefT.field.mpr (h D hd hk (NoRefT.field.mp hn)).2⟩,
-    fun _ h => by cases h⟩
-theorem gk_tIndex {x x' k k'} (h1 : (GkE cx Dok) x x') (h2 : (GkE cx Dok) k k') : (GkT cx Dok) (.index x k) (.index x' k') :=
-  ⟨fun D hd hk hn =>
-    have hh := NoRefT.index.mp hn
-    ⟨.tIndex (h1 D hd hk hh.1).1 (h2 D hd hk hh.2).1, NoRefT.index.mpr ⟨(h1 D hd hk hh.1).2, (h2 D hd hk hh.2).2⟩⟩,
-    fun _ h => by cases h⟩
-theorem gk_tNonLv {e e' : Expr} (h1 : e.isLv = false) (h2 : e'.isLv = false) : (GkT cx Dok) e e' :=
-  ⟨fun _ _ _ _ => ⟨.tNonLv h1 h2, NoRefT.nonLv h2⟩, fun a ha => by subst ha; simp [Expr.isLv] at h1⟩
-
-/-! ### chain-level congruences (expressions) -/
-
-theorem gch_entries {es es'} (h : Forall2 (EntryRel (Chain (GkE cx Dok))) es es') : Chain (Forall2 (EntryRel (GkE cx Dok))) es es' := by
-  refine Chain.forall2 (Visitor.EntryRel.refl GkE.refl) (Forall2.imp (fun a b hab => ?_) h)
-  cases a <;> cases b <;> simp only [EntryRel] at hab
-  · exact Chain.map (L' := EntryRel (GkE cx Dok)) Entry.pos (fun _ _ h => h) hab
-  · obtain ⟨rfl, hab⟩ := hab
-    exact Chain.map (L' := EntryRel (GkE cx Dok)) (Entry.named _) (fun _ _ h => ⟨rfl, h⟩) hab
-  · exact Chain.map2 (L' := EntryRel (GkE cx Dok)) Entry.keyed GkE.refl GkE.refl (fun _ _ _ _ h1 h2 => ⟨h1, h2⟩) hab.1 hab.2
-
-theorem gch_segs {es es'} (h : Forall2 (SegRel (Chain (GkE cx Dok))) es es') : Chain (Forall2 (SegRel (GkE cx Dok))) es es' := by
-  refine Chain.forall2 (Visitor.SegRel.refl GkE.refl) (Forall2.imp (fun a b hab => ?_) h)
-  cases a <;> cases b <;> simp only [SegRel] at hab
-  · subst hab; exact .refl _
-  · exact Chain.map (L' := SegRel (GkE cx Dok)) Seg.v (fun _ _ h => h) hab
-
-/-! ### link-level congruences (statements) -/
-
-theorem gk_assign {ts ts' vs vs'} (h1 : Forall2 (GkT cx Dok) ts ts') (h2 : Forall2 (GkE cx Dok) vs vs') :
-    (GkS cx Dok) (.assign ts vs) (.assign ts' vs') := fun D hd hk hn =>
-  have hh := NoRefS.assign.mp hn
-  ⟨.assign (gkTs h1 D hd hk hh.1).1 (gkEs h2 D hd hk hh.2).1, NoRefS.assign.mpr ⟨(gkTs h1 D hd hk hh.1).2, (gkEs h2 D hd hk hh.2).2⟩⟩
-theorem gk_cassign {op t t' v v'} (h1 : (GkT cx Dok) t t') (h2 : (GkE cx Dok) v v') :
-    (GkS cx Dok) (.cassign op t v) (.cassign op t' v') := fun D hd hk hn =>
-  have hh := NoRefS.cassign.mp hn
-  ⟨.cassign (h1.hr D hd hk hh.1).1 (h2 D hd hk hh.2).1, NoRefS.cassign.mpr ⟨(h1.hr D hd hk hh.1).2, (h2 D hd hk hh.2).2⟩⟩
-theorem gk_callStmt {c c'} (h : (GkE cx Dok) c c') : (GkS cx Dok) (.callStmt c) (.callStmt c') := fun D hd hk hn =>
-  ⟨.callStmt (h D hd hk (NoRefS.callStmt.mp hn)).1, NoRefS.callStmt.mpr (h D hd hk (NoRefS.callStmt.mp hn)).2⟩
-theorem gk_doBlock {b b'} (h : (GkB cx Dok) b b') : (GkS cx Dok) (.doBlock b) (.doBlock b') := fun D hd hk hn =>
-  let ⟨⟨_, hb⟩, hnb⟩ := h D hd hk (NoRefS.doBlock.mp hn)
-  ⟨.doBlock hb, NoRefS.doBlock.mpr hnb⟩
-theorem gk_function {name m f f'} (h : (GkF cx Dok) f f') : (GkS cx Dok) (.function name m f) (.function name m f') :=
-  fun D hd hk hn => by
-  cases name with
-  | nil =>
-    have hn' := NoRefS.functionNil.mp hn
-    have hh := h D hd hk m hn'.2 hn'.1
-    exact ⟨.function (fun _ hr => by simp at hr) hh.1, NoRefS.functionNil.mpr ⟨hn'.1, hh.2⟩⟩
-  | cons root path =>
-    have hn' := NoRefS.functionCons.mp hn
-    have hh := h D hd hk m hn'.2.2.2 hn'.2.2.1
-    exact ⟨.function (fun _ hr => by cases hr; exact ⟨hn'.1, hn'.2.1⟩) hh.1,
-      NoRefS.functionCons.mpr ⟨hn'.1, hn'.2.1, hn'.2.2.1, hh.2⟩⟩
-theorem gk_gfor {ns ns' vs vs' b b'} (hnm : ns.map TName.name = ns'.map TName.name) (h1 : Forall2 (GkE cx Dok) vs vs')
-    (h2 : (GkB cx Dok) b b') : (GkS cx Dok) (.gfor ns vs b) (.gfor ns' vs' b') := fun D hd hk hn =>
-  have hh := NoRefS.gfor.mp hn
-  let ⟨⟨_, hb⟩, hnb⟩ := h2 D hd hk hh.2.2
-  ⟨.gfor hnm (NoWat.names (NoWat.congr hnm hh.1)) (gkEs h1 D hd hk hh.2.1).1 hb,
-    NoRefS.gfor.mpr ⟨NoWat.congr hnm hh.1, (gkEs h1 D hd hk hh.2.1).2, hnb⟩⟩
-theorem gk_nfor {n n' a a' b b' st st' body body'} (hnm : TName.name n = TName.name n') (h1 : (GkE cx Dok) a a') (h2 : (GkE cx Dok) b b')
-    (h3 : OptRel (GkE cx Dok) st st') (h4 : (GkB cx Dok) body body') :
-    (GkS cx Dok) (.nfor n a b st body) (.nfor n' a' b' st' body') := fun D hd hk hn => by
-  obtain ⟨nm, ty⟩ := n
-  obtain ⟨nm', ty'⟩ := n'
-  simp only [TName.name] at hnm
-  subst hnm
-  cases st <;> cases st' <;> simp only [OptRel] at h3
-  · have hh := NoRefS.nforNone.mp hn
-    obtain ⟨⟨_, hb⟩, hnb⟩ := h4 D hd hk hh.2.2.2
-    exact ⟨.nforNone rfl hh.1 (h1 D hd hk hh.2.1).1 (h2 D hd hk hh.2.2.1).1 hb,
-      NoRefS.nforNone.mpr ⟨hh.1, (h1 D hd hk hh.2.1).2, (h2 D hd hk hh.2.2.1).2, hnb⟩⟩
-  · have hh := NoRefS.nforSome.mp hn
-    obtain ⟨⟨_, hb⟩, hnb⟩ := h4 D hd hk hh.2.2.2.2
-    exact ⟨.nforSome rfl hh.1 (h1 D hd hk hh.2.1).1 (h2 D hd hk hh.2.2.1).1 (h3 D hd hk hh.2.2.2.1).1 hb,
-      NoRefS.nforSome.mpr ⟨hh.1, (h1 D hd hk hh.2.1).2, (h2 D hd hk hh.2.2.1).2, (h3 D hd hk hh.2.2.2.1).2, hnb⟩⟩
-theorem gk_ifs {brs brs' els els'} (h1 : Forall2 (PairRel (GkE cx Dok) (GkB cx Dok)) brs brs') (h2 : OptRel (GkB cx Dok) els els') :
-    (GkS cx Dok) (.ifs brs els) (.ifs brs' els') := fun D hd hk hn => by
-  cases els <;> cases els' <;> simp only [OptRel] at h2
-  · have hh := NoRefS.ifsNone.mp hn
-    exact ⟨.ifsNone (gkBranches h1 D hd hk hh).1, NoRefS.ifsNone.mpr (gkBranches h1 D hd hk hh).2⟩
-  · have hh := NoRefS.ifsSome.mp hn
-    obtain ⟨⟨_, hb⟩, hnb⟩ := h2 D hd hk hh.2
-    exact ⟨.ifsSome (gkBranches h1 D hd hk hh.1).1 hb, NoRefS.ifsSome.mpr ⟨(gkBranches h1 D hd hk hh.1).2, hnb⟩⟩
-theorem gk_localAssign {kind ns ns' vs vs'} (hnm : ns.map TName.name = ns'.map TName.name) (h : Forall2 (GkE cx Dok) vs vs') :
-    (GkS cx Dok) (.localAssign kind ns vs) (.localAssign kind ns' vs') := fun D hd hk hn =>
-  have hh := NoRefS.localAssign.mp hn
-  ⟨.localAssign hnm (NoWat.names (NoWat.congr hnm hh.1)) (gkEs h D hd hk hh.2).1,
-    NoRefS.localAssign.mpr ⟨NoWat.congr hnm hh.1, (gkEs h D hd hk hh.2).2⟩⟩
-theorem gk_localFn {kind name f f'} (h : (GkF cx Dok) f f') : (GkS cx Dok) (.localFn kind name f) (.localFn kind name f') := fun D hd hk hn => by
-  have hn' := NoRefS.localFn.mp hn
-  have hh := h D hd hk none hn'.2 (fun h => by simp at h)
-  rw [addSelf_none, addSelf_none] at hh
-  exact ⟨.localFn hn'.1 hh.1, NoRefS.localFn.mpr ⟨hn'.1, hh.2⟩⟩
-theorem gk_repeat {b b' c c'} (h : (GkRep cx Dok) (b, c) (b', c')) : (GkS cx Dok) (.repeat_ b c) (.repeat_ b' c') := fun D hd hk hn =>
-  have hh := NoRefS.repeat_.mp hn
-  ⟨.repeat_ (h D hd hk hh.1 hh.2).1, NoRefS.repeat_.mpr (h D hd hk hh.1 hh.2).2⟩
-theorem gk_while {b b' c c'} (h1 : (GkE cx Dok) c c') (h2 : (GkB cx Dok) b b') : (GkS cx Dok) (.while_ c b) (.while_ c' b') := fun D hd hk hn =>
-  have hh := NoRefS.while_.mp hn
-  let ⟨⟨_, hb⟩, hnb⟩ := h2 D hd hk hh.2
-  ⟨.while_ (h1 D hd hk hh.1).1 hb, NoRefS.while_.mpr ⟨(h1 D hd hk hh.1).2, hnb⟩⟩
-theorem gk_typeDecl {ex name ty ty'} : (GkS cx Dok) (.typeDecl ex name ty) (.typeDecl ex name ty') := fun _ _ _ _ =>
-  ⟨.typeDecl, fun _ _ => rfl⟩
-theorem gk_typeFn {ex name f f'} : (GkS cx Dok) (.typeFn ex name f) (.typeFn ex name f') := fun _ _ _ _ =>
-  ⟨.typeFn, fun _ _ => rfl⟩
-theorem gk_ret {es es'} (h : Forall2 (GkE cx Dok) es es') : (GkL cx Dok) (.ret es) (.ret es') := fun D hd hk hn =>
-  ⟨.ret (gkEs h D hd hk (NoRefL.ret.mp hn)).1, NoRefL.ret.mpr (gkEs h D hd hk (NoRefL.ret.mp hn)).2⟩
-theorem gk_block {ss ss' l l'} (h1 : Forall2 (GkS cx Dok) ss ss') (h2 : OptRel (GkL cx Dok) l l') : (GkBo cx Dok) (.mk ss l) (.mk ss' l') :=
-  fun D hd hk hn => by
-  cases l <;> cases l' <;> simp only [OptRel] at h2
-  · have hh := NoRefB.none.mp hn
-    exact ⟨.blockNone (gkSs h1 D hd hk hh).1, NoRefB.none.mpr (gkSs h1 D hd hk hh).2⟩
-  · have hh := NoRefB.some.mp hn
-    exact ⟨.blockSome (gkSs h1 D hd hk hh.1).1 (h2 D hd hk hh.2).1, NoRefB.some.mpr ⟨(gkSs h1 D hd hk hh.1).2, (h2 D hd hk hh.2).2⟩⟩
-theorem gk_fnBody {ps ps' v vt vt' r r' g g' a a' b b'} (hnm : ps.map TName.name = ps'.map TName.name)
-    (h : (GkB cx Dok) b b') : (GkF cx Dok) (.mk ps v vt r g a b) (.mk ps' v vt' r' g' a' b') := fun D hd hk m hn hs => by
-  have hn' := NoRefF.mk.mp hn
-  obtain ⟨⟨_, hb⟩, hnb⟩ := h D hd hk hn'.2
-  have hw' := NoWat.congr hnm hn'.1
-  refine ⟨?_, NoRefF.mk.mpr ⟨hw', hnb⟩⟩
-  cases m with
-  | none => exact .fnBody hnm (NoWat.names hw') hb
-  | some _ =>
-    refine .fnBody (by simp only [List.map_cons, hnm]) ?_ hb
-    intro n hn
-    simp only [List.map_cons, TName.name, List.mem_cons] at hn
-    rcases hn with rfl | hn
-    · exact hs rfl
-    · exact NoWat.names hw' n hn
-
-/-- the stage-3 congruence family: chains of `HR` links -/
-def heapFamOn (cx : Cx) (Dok : List DName → Prop) : CongFam where
-  relE := Chain (GkE cx Dok)
-  relT := Chain (GkT cx Dok)
-  relS := Chain (GkS cx Dok)
-  relL := Chain (GkL cx Dok)
-  relB := Chain (GkB cx Dok)
-  relBo := Chain (GkBo cx Dok)
-  relRep := fun b c b' c' => Chain (GkRep cx Dok) (b, c) (b', c')
-  relF := Chain (GkF cx Dok)
-  reflE := .refl
-  reflT := .refl
-  reflS := .refl
-  reflL := .refl
-  reflB := .refl
-  reflBo := .refl
-  reflF := .refl
-  transE := Chain.trans
-  transT := Chain.trans
-  transS := Chain.trans
-  transL := Chain.trans
-  transB := Chain.trans
-  transBo := Chain.trans
-  transRep := Chain.trans
-  boToB := fun h => Chain.map (L' := (GkB cx Dok)) id (fun _ _ h => h.toB) h
-  repOfOpen := fun hb hc =>
-    Chain.map2 (L' := (GkRep cx Dok)) Prod.mk GkBo.refl GkE.refl
-      (fun _ _ _ _ h1 h2 D hd hk hnb hnc => ⟨.rep (h1 D hd hk hnb).1 (h2 D hd hk hnc).1, (h1 D hd hk hnb).2, (h2 D hd hk hnc).2⟩) hb hc
-  paren := fun h => Chain.map (L' := (GkE cx Dok)) Expr.paren (fun _ _ => gk_paren) h
-  un := fun {op _ _} h => Chain.map (L' := (GkE cx Dok)) (Expr.un op) (fun _ _ => gk_un) h
-  bin := fun {op _ _ _ _} h1 h2 =>
-    Chain.map2 (L' := (GkE cx Dok)) (Expr.bin op) GkE.refl GkE.refl (fun _ _ _ _ => gk_bin) h1 h2
-  call := fun {_ _ m k _ _} hf ha =>
-    Chain.map2 (L2 := Forall2 (GkE cx Dok)) (L' := (GkE cx Dok)) (fun f args => Expr.call f m k args) GkE.refl
-      (Forall2.refl GkE.refl) (fun _ _ _ _ => gk_call) hf (Chain.forall2 GkE.refl ha)
-  field := fun {_ _ n} h => Chain.map (L' := (GkE cx Dok)) (Expr.field · n) (fun _ _ => gk_field) h
-  index := fun h1 h2 => Chain.map2 (L' := (GkE cx Dok)) Expr.index GkE.refl GkE.refl (fun _ _ _ _ => gk_index) h1 h2
-  fn := fun h => Chain.map (L' := (GkE cx Dok)) Expr.fn (fun _ _ => gk_fn) h
-  table := fun h => Chain.map (L' := (GkE cx Dok)) Expr.table (fun _ _ => gk_table) (gch_entries h)
-  ifx := fun h1 h2 h3 h4 =>
-    Chain.map4 (L3 := Forall2 (PairRel (GkE cx Dok) (GkE cx Dok))) (L5 := (GkE cx Dok)) Expr.ifx GkE.refl GkE.refl
-      (Forall2.refl fun p => ⟨GkE.refl p.1, GkE.refl p.2⟩) GkE.refl (fun _ _ _ _ _ _ _ _ => gk_ifx)
-      h1 h2 (ch_pairs GkE.refl GkE.refl h3) h4
-  interp := fun h => Chain.map (L' := (GkE cx Dok)) Expr.interp (fun _ _ => gk_interp) (gch_segs h)
-  cast := fun {_ _ ty ty'} h =>
-    (Chain.map (L' := (GkE cx Dok)) (Expr.cast · ty) (fun _ _ => gk_cast) h).trans (.single (gk_cast (GkE.refl _)))
-  inst := fun {_ _ ty ty'} h =>
-    (Chain.map (L' := (GkE cx Dok)) (Expr.inst · ty) (fun _ _ => gk_inst) h).trans (.single (gk_inst (GkE.refl _)))
-  tField := fun {_ _ n} h => Chain.map (L' := (GkT cx Dok)) (Expr.field · n) (fun _ _ => gk_tField) h
-  tIndex := fun h1 h2 => Chain.map2 (L' := (GkT cx Dok)) Expr.index GkE.refl GkE.refl (fun _ _ _ _ => gk_tIndex) h1 h2
-  tNonLv := fun h1 h2 _ => .single (gk_tNonLv h1 h2)
-  tVar := fun {a b} h => by
-    have := gchainT_var h a rfl
-    injection this with h1
-    exact h1.symm
-  assign := fun h1 h2 =>
-    Chain.map2 (L := Forall2 (GkT cx Dok)) (L2 := Forall2 (GkE cx Dok)) (L' := (GkS cx Dok)) Stmt.assign (Forall2.refl GkT.refl)
-      (Forall2.refl GkE.refl) (fun _ _ _ _ => gk_assign) (Chain.forall2 GkT.refl h1) (Chain.forall2 GkE.refl h2)
-  cassign := fun {op _ _ _ _} h1 h2 =>
-    Chain.map2 (L' := (GkS cx Dok)) (Stmt.cassign op) GkT.refl GkE.refl (fun _ _ _ _ => gk_cassign) h1 h2
-  callStmt := fun h => Chain.map (L' := (GkS cx Dok)) Stmt.callStmt (fun _ _ => gk_callStmt) h
-  doBlock := fun h => Chain.map (L' := (GkS cx Dok)) Stmt.doBlock (fun _ _ => gk_doBlock) h
-  function := fun {name m _ _} h => Chain.map (L' := (GkS cx Dok)) (Stmt.function name m) (fun _ _ => gk_function) h
-  gfor := fun {ns ns' _ _ _ _} hnm h1 h2 =>
-    (Chain.map2 (L := Forall2 (GkE cx Dok)) (L' := (GkS cx Dok)) (Stmt.gfor ns) (Forall2.refl GkE.refl) GkB.refl
-      (fun _ _ _ _ => gk_gfor rfl) (Chain.forall2 GkE.refl h1) h2).trans
-      (.single (gk_gfor hnm (Forall2.refl GkE.refl _) (GkB.refl _)))
-  nfor := fun {n n' _ _ _ _ _ _ _ _} hnm h1 h2 h3 h4 =>
-    (Chain.map4 (L3 := OptRel (GkE cx Dok)) (L5 := (GkS cx Dok)) (Stmt.nfor n) GkE.refl GkE.refl (OptRel.refl GkE.refl) GkB.refl
-      (fun _ _ _ _ _ _ _ _ => gk_nfor rfl) h1 h2 (Chain.optRel GkE.refl h3) h4).trans
-      (.single (gk_nfor hnm (GkE.refl _) (GkE.refl _) (OptRel.refl GkE.refl _) (GkB.refl _)))
-  ifs := fun h1 h2 =>
-    Chain.map2 (L := Forall2 (PairRel (GkE cx Dok) (GkB cx Dok))) (L2 := OptRel (GkB cx Dok)) (L' := (GkS cx Dok)) Stmt.ifs
-      (Forall2.refl fun p => ⟨GkE.refl p.1, GkB.refl p.2⟩) (OptRel.refl GkB.refl) (fun _ _ _ _ => gk_ifs)
-      (ch_pairs GkE.refl GkB.refl h1) (Chain.optRel GkB.refl h2)
-  localAssign := fun {kind ns ns' _ _} hnm h =>
-    (Chain.map (L := Forall2 (GkE cx Dok)) (L' := (GkS cx Dok)) (Stmt.localAssign kind ns) (fun _ _ => gk_localAssign rfl)
-      (Chain.forall2 GkE.refl h)).trans (.single (gk_localAssign hnm (Forall2.refl GkE.refl _)))
-  localFn := fun {kind name _ _} h => Chain.map (L' := (GkS cx Dok)) (Stmt.localFn kind name) (fun _ _ => gk_localFn) h
-  repeat_ := fun h => Chain.map (L := (GkRep cx Dok)) (L' := (GkS cx Dok)) (fun p => Stmt.repeat_ p.1 p.2) (fun _ _ => gk_repeat) h
-  while_ := fun h1 h2 => Chain.map2 (L' := (GkS cx Dok)) Stmt.while_ GkE.refl GkB.refl (fun _ _ _ _ => gk_while) h1 h2
-  typeDecl := .single gk_typeDecl
-  typeFn := .single gk_typeFn
-  ret := fun h => Chain.map (L := Forall2 (GkE cx Dok)) (L' := (GkL cx Dok)) Last.ret (fun _ _ => gk_ret) (Chain.forall2 GkE.refl h)
-  block := fun h1 h2 =>
-    Chain.map2 (L := Forall2 (GkS cx Dok)) (L2 := OptRel (GkL cx Dok)) (L' := (GkBo cx Dok)) Block.mk (Forall2.refl GkS.refl)
-      (OptRel.refl GkL.refl) (fun _ _ _ _ => gk_block) (Chain.forall2 GkS.refl h1) (Chain.optRel GkL.refl h2)
-  fnBody := fun {ps ps' v vt vt' r r' g g' a a' _ _} hnm h =>
-    (Chain.map (L' := (GkF cx Dok)) (FnBody.mk ps v vt r g a) (fun _ _ => gk_fnBody rfl) h).trans
-      (.single (gk_fnBody hnm (GkB.refl _)))
-
+/-- the congruence family of chains of links relative to `Dok` -/
+abbrev heapFamOn (cx : Cx) (Dok : List DName → Prop) : CongFam := heapFam (cxOn cx Dok)
 
 /-- a chain of closed-block links between whole programs preserves the observable outcome -/
 theorem chainOn_runProgram {b b' : Block} (h : Chain (GkB cx Dok) b b') (hD : Dok (watD cx))
     (hb : NoRefB (watD cx) b) {N : NumOps} (ρ : ExtOracle N) (n : Nat) (externs : List String)
-    (hG : ∀ p ∈ cx.G N, (initState externs : State N).getGlobal p.1 = p.2) :
-    runProgram ρ n externs b' = runProgram ρ n externs b := by
-  induction h with
-  | refl => rfl
-  | cons hl _ ih =>
-    obtain ⟨⟨D', hr⟩, hb'⟩ := hl (watD cx) (watOK_watD cx) hD hb
-    exact (ih hb').trans (runProgram_hr ρ n externs hr hG)
+    (hG : ∀ p ∈ cx.G N, (initState externs : State N).getGlobal p.1 = p.2)
+    (hu : cx.upto = false := by rfl) (hF : cx.F = [] := by rfl)
+    (hCF : ∀ n, cx.CF N (callClosure ρ n) := by intros; trivial) :
+    runProgram ρ n externs b' = runProgram ρ n externs b :=
+  chain_runProgram (cx := cxOn cx Dok) h hb ρ n externs hG hD hu hF hCF
 
 end DarkluaModel.C06.HeapOn
